@@ -45,12 +45,12 @@ func init() {
 // documents: every lazily built table and every extension is touched
 
 var c07Docs = []string{
-	"&amp; &copy; x &#x41; [l](/u&amp;v \"t&quot;\")\n\n# Heading one {#hid .cls}\n\nfoo *bar* **baz** `code` <span>raw</span>\n\n- a\n- b\n  - c\n\n1. x\n2. y\n\n> quote\n> more\n\n```go info&amp;\nfenced\n```\n\n    indented\n\n<div>\nhtml\n</div>\n\n[ref]: /url 'title'\n\n[REF] and [ẞ] ok\n\n[ss]: /fold\n",
-	"&lt;tag&gt; text &hearts;\n\n| a | b |\n|:--|--:|\n| 1 | 2 |\n| ~~s~~ | www.example.com |\n\n- [ ] todo\n- [x] done\n\nterm\n: definition &amp; more\n\nfoot[^1] note[^2] again[^1]\n\n[^1]: first\n[^2]: second `c`\n\n\"quoted\" -- dash... 'single'\n\nhttp://example.com/a_b?c=d&e=f and a@b.cd\n",
-	"&copy; 日本語の\n文章 です\n\n## Heading two\n\n## Heading two\n\nSetext\n======\n\n![img](/i.png \"t\") <http://auto.link> <me@x.yz>\n\n***\n\n* * *\n\n1) one\n2) two\n\n   para in item\n\nline one  \nline two\\\nline three\n\n<!-- comment -->\n\n<?php echo 1; ?>\n\n[Ünï]: /u\n\n[ünï] [ÜNÏ][]\n",
-	"&amp;\n\n> - nested\n>   > deep `x`\n>\n> 1. n\n\n~~~~ info\n~~~\n~~~~\n\n| x |\n|---|\n\n*a **b** _c_* __d__ ~~e~~ \\* \\\\ &#0; &nosuch;\n\n[a][b] [b] [c]()\n\n[b]: <u v> (t)\n\nApple\n:   Pomaceous\n\n    para\n\nOrange\n:   Citrus\n\nx[^n]\n\n[^n]: n1\n\n    n2\n",
-	"plain &amp; simple\n\n# T {.c k=v}\n\ntext\n",
-	"&quot;\n\n" + strings.Repeat("- item *e* `c` [l](/u) &amp;\n", 12) + "\n" + strings.Repeat("para with &lt; entity and \"quotes\" -- here\n\n", 6),
+	"&amp; &copy; x &#x41; [l](/u&amp;v \"t&quot;\") [n](/p&#8364;q&#x20AC; \"t&#8364;\") ![i](/i&#233;.png) <http://a.b/&#233;>\n\n[nr]: /r&#8364; 'n&#x41;'\n\n[nr] [NR][] \\&#35; &#0;\n\n# Heading one {#hid .cls}\n\nfoo *bar* **baz** `code` <span>raw</span>\n\n- a\n- b\n  - c\n\n1. x\n2. y\n\n> quote\n> more\n\n```go info&amp;\nfenced\n```\n\n    indented\n\n<div>\nhtml\n</div>\n\n[ref]: /url 'title'\n\n[REF] and [ẞ] ok\n\n[ss]: /fold\n",
+	"&lt;tag&gt; text &hearts; [e](/e&#8364; '&#8364;') ![j](</j &#233;>)\n\n| a | b |\n|:--|--:|\n| 1 | 2 |\n| ~~s~~ | www.example.com |\n\n- [ ] todo\n- [x] done\n\nterm\n: definition &amp; more\n\nfoot[^1] note[^2] again[^1]\n\n[^1]: first\n[^2]: second `c`\n\n\"quoted\" -- dash... 'single'\n\nhttp://example.com/a_b?c=d&e=f and a@b.cd\n",
+	"&copy; 日本語の\n文章 です [k](/k&#x20AC;z) ~~~\n\n``` i&#110;fo\nx\n```\n\n## Heading two\n\n## Heading two\n\nSetext\n======\n\n![img](/i.png \"t\") <http://auto.link> <me@x.yz>\n\n***\n\n* * *\n\n1) one\n2) two\n\n   para in item\n\nline one  \nline two\\\nline three\n\n<!-- comment -->\n\n<?php echo 1; ?>\n\n[Ünï]: /u\n\n[ünï] [ÜNÏ][]\n",
+	"&amp; ![m](/m&#233; \"&#233;\") [o](<&#111;>)\n\n> - nested\n>   > deep `x`\n>\n> 1. n\n\n~~~~ info\n~~~\n~~~~\n\n| x |\n|---|\n\n*a **b** _c_* __d__ ~~e~~ \\* \\\\ &#0; &nosuch;\n\n[a][b] [b] [c]()\n\n[b]: <u v> (t)\n\nApple\n:   Pomaceous\n\n    para\n\nOrange\n:   Citrus\n\nx[^n]\n\n[^n]: n1\n\n    n2\n",
+	"plain &amp; simple [p](/&#112;&#x71;)\n\n# T {.c k=v}\n\ntext\n",
+	"&quot;\n\n" + strings.Repeat("- item *e* `c` [l](/u&#8364;) &amp; &#8364;\n", 12) + "\n" + strings.Repeat("para with &lt; entity and \"quotes\" -- here\n\n", 6),
 }
 
 // ---------------------------------------------------------------------------------
@@ -450,7 +450,11 @@ type c07ChildOut struct {
 	Races   []c07Race
 	Stderr  string
 	Exit    int
+	Crash   string // Go runtime fatal error / unrecovered panic text, if the process died
+	CrashID int    // run during which it died
 }
+
+var reFatal = regexp.MustCompile(`(?m)^(fatal error: .*|panic: .*)$`)
 
 // runC07Child executes runs in one fresh -race process.
 func runC07Child(runs []c07Run, timeout time.Duration) c07ChildOut {
@@ -507,6 +511,13 @@ func runC07Child(runs []c07Run, timeout time.Duration) c07ChildOut {
 				continue
 			}
 			block = append(block, l)
+		}
+	}
+	if out.Exit != 0 {
+		if m := reFatal.FindString(out.Stderr); m != "" {
+			i := strings.Index(out.Stderr, m)
+			out.Crash = m + "\n" + firstLines(out.Stderr[i:], 40)
+			out.CrashID = cur
 		}
 	}
 	if b, err := os.ReadFile(resf); err == nil {
@@ -569,6 +580,10 @@ func c07Reproduce(run c07Run, attempts int) (bool, string) {
 			res = &out.Results[0]
 		}
 		sigs, details := c07Judge(&run, res, out.Races)
+		if out.Crash != "" {
+			sigs = append(sigs, "C07/crash")
+			details = append(details, fmt.Sprintf("the process died during concurrent calls on a shared %s instance (apis %v):\n%s", run.Config, run.Api, out.Crash))
+		}
 		if len(sigs) > 0 {
 			return true, strings.Join(details, "\n")
 		}
@@ -770,7 +785,25 @@ func runC07(c *Ctx) {
 	// ---- judge
 	results := map[int]*c07Result{}
 	racesBy := map[int][]c07Race{}
+	type crash struct {
+		run  *c07Run
+		text string
+	}
+	var crashes []crash
 	for bi, o := range outs {
+		if o.Crash != "" {
+			// the process died inside a concurrent call: the runtime detected e.g. a
+			// concurrent map read and write. The run is re-executed alone below.
+			for i := range batches[bi] {
+				if batches[bi][i].ID == o.CrashID {
+					crashes = append(crashes, crash{&batches[bi][i], o.Crash})
+				}
+			}
+			if len(crashes) == 0 {
+				infra("C07 child for batch %d crashed outside a run (exit %d)\n%s", bi, o.Exit, firstLines(lastN(o.Stderr, 3000), 60))
+			}
+			continue
+		}
 		if len(o.Results) != len(batches[bi]) {
 			infra("C07 child for batch %d returned %d of %d results (exit %d)\n%s", bi, len(o.Results), len(batches[bi]), o.Exit, firstLines(lastN(o.Stderr, 3000), 60))
 		}
@@ -780,6 +813,14 @@ func runC07(c *Ctx) {
 		for _, rc := range o.Races {
 			racesBy[rc.RunID] = append(racesBy[rc.RunID], rc)
 		}
+	}
+	for _, cr := range crashes {
+		ok, d := c07Reproduce(*cr.run, 6)
+		if !ok {
+			infra("C07: the process crashed during run %d (%s) but the run neither crashes nor races in 6 fresh processes:\n%s", cr.run.ID, cr.run.ClassID, cr.text)
+		}
+		m := reFatal.FindString(cr.text)
+		c.Report(Violation{Signature: "C07/crash/" + strings.TrimSpace(strings.SplitN(m, "\n", 2)[0]), Detail: d, Replay: c07Replay{Run: *cr.run}})
 	}
 	var followed, diverged, timedOut int64
 	divSamples := 0
@@ -888,7 +929,6 @@ func c07ValidateTraces(c *Ctx, classes []onceClass, byID map[int]*c07Run, result
 			}
 			return "ApiMixed", true
 		}
-		return "", false
 	}
 	var ids []int
 	for id := range results {
